@@ -452,6 +452,10 @@ func TestT(t *testing.T) {
 			c.V = gen.LogUniform(rt, 1e4, 1e6, "v.big")
 		case 2:
 			c.V = rapid.SampledFrom([]float64{0.1, 0.5, 1, 2, 1e4}).Draw(rt, "v.special")
+		case 3:
+			// degrees of freedom where Gamma((V+1)/2) or Gamma(V/2) crosses the float64 overflow
+			// threshold (171.62): a normalisation computed with math.Gamma instead of Lgamma breaks here
+			c.V = 2*171.6 + rapid.Float64Range(-3, 3).Draw(rt, "v.gammaLimit")
 		default:
 			c.V = gen.LogUniform(rt, 0.1, 1e4, "v")
 		}
